@@ -26,7 +26,7 @@ Judge(c) ==
         fxOk == ObsFx(r.s.fx) = c.fx
     IN CASE r.k \in {"undef", "oof"} -> <<"skip", r.k>>
          [] c.out[1] = "budget" -> IF r.s.fuel > Fuel - 1500 THEN <<"bad", "budget">> ELSE <<"skip", "budget">>
-         [] r.k = "val" -> IF c.out[1] = "val" /\ c.out[2] = Obs(r.v) /\ fxOk THEN <<"ok", "val">>
+         [] r.k = "val" -> IF c.out[1] = "val" /\ c.out[2] = ObsR(r) /\ fxOk THEN <<"ok", "val">>
                            ELSE <<"bad", IF c.out[1] # "val" THEN "kind" ELSE IF fxOk THEN "value" ELSE "effects">>
          [] r.k = "err" -> IF c.out[1] = "err" /\ fxOk THEN <<"ok", "err">>
                            ELSE <<"bad", IF c.out[1] # "err" THEN "kind" ELSE "effects">>
